@@ -227,6 +227,12 @@ def run(case):
             return {"findings": [], "info": {}}
         compare_models(cls, mA, mB, F, cc, comp_same=True, tol=tol)
     elif rel == "coslat":
+        if case["mseed"] % 3 == 0:
+            # "all latitude coordinates in [-90, 90]": also a domain hugging the equator (degrees that would also pass as radians)
+            # and one reaching a pole
+            newlat = [[-1.2, 0.3, 1.4], [-90.0, 0.5, 60.0]][(case["mseed"] // 3) % 2]
+            X = map_struct(lambda a: a.assign_coords({latname: newlat}), X)
+            Y = Y.assign_coords({latname: newlat})
         def wl(a):
             fd = [d for d in a.dims if d != "time"]
             w = np.sqrt(np.clip(np.cos(np.deg2rad(a[latname])), 0, 1))
